@@ -701,6 +701,7 @@ func cmdLibRecord(args []string) {
 	w := bufio.NewWriterSize(of, 1<<20)
 	defer w.Flush()
 	g := val.New(*seed)
+	g.LongLists = 0 // the state is logged after every write: boundary-sized payloads belong to the codec traces
 	ops, uns := 0, 0
 	for c := 0; c < *n; c++ {
 		g.Budget = *budget
